@@ -50,8 +50,9 @@ from ..envs import SPECS, py_instance
 from ..models.beam import reference_beam_search
 from ..models.decode import reference_logprobs
 from ..play import judge_row, violated
-from ..policies import build_policy, expand_starts, make_batch, small_cfg
-from ..runner import Sub
+from ..policies import (INFO, StartFn, build_policy, expand_starts, has_batchnorm, make_batch, resolve_setup, setup_dims,
+                        setup_events, small_cfg)
+from ..runner import Sub, h64
 from .c11 import HANG_S, Hang, watchdog
 
 PROPERTY = "C13"
@@ -65,6 +66,16 @@ RULE = (
     "beam's parent slot != its own slot) and, for variable-length envs, is additionally classed by whether beams "
     "finish at different steps; distinct = case hash. Decisive fraction (W-th/(W+1)-th candidate gap > 1e-5) is "
     "reported as event counters; select_best_not_slot0|mtsp/<cost type> counts instances whose best beam is not beam 0. "
+    "Round-3b dimensions of beam_search (optional case keys, class counters decoding:* / flag:* / policy:* / cfg:* / src:* / "
+    "env:* / ctor:*): decoding configuration (1/2: temperature 1|0.5|2, tanh clipping default|0|5|10 as policy attribute or "
+    "kwarg, top_k 0 x6|1|2|3, top_p 0 x6|0.5|0.8|0.95); return flags return_sum_log_likelihood (1/4), return_entropy (1/3), "
+    "select_best left at BeamSearch's own default (1/3 of the select_best cases), beam search requested through phase + "
+    "<phase>_decode_type (1/5), injected [B,T] step-relevance mask on "
+    "tsp/atsp/pdp (1/4); caller-supplied select_start_nodes_fn (1/5); other policies (1/4: am_pomo tsp/cvrp/sdvrp, symnco "
+    "tsp/cvrp, ham/pdp, matnet/atsp, mvmoe/mtvrp, am/mtvrp); env configuration / hand-built instances / env built for "
+    "another size / constructor switches as in C11 (vf.policies.setup_dims; no env=None: the spy env is the observation "
+    "channel). Filtered cases count `filter_removed_feasible` (some decoded step of some beam lost a feasible action) and "
+    "`instances_tainted_by_ambiguous_filter_cut` (don't-care from that step on). "
     "big_<regime> (one sub-check, one shard per regime; tiny AM policy embed 16 / 1 layer): int16_rows = tsp|mtsp, W 8-12, "
     "n = W..W+2 nodes (mtsp: cities), B = ceil(2^15/(W-1)) + 0..12%; int16_wide = same with W 20-31; uint16_rows = tsp, "
     "W in {8,10,12,16}, B = ceil(2^16/(W-1)) + 0..12%; int8_slots = tsp|mtsp, W 129-136, n = W..W+6, B 1-3; uint8_slots = "
@@ -76,7 +87,17 @@ RULE = (
 )
 ASSUMPTIONS = [
     "AM policy at toy size (embed 32, 2 encoder layers, batch norm, eval mode; big_<regime>: embed 16, 1 layer, 2 heads), "
-    "spread-initialised, dropout 0, default tanh clipping 10 / temperature 1",
+    "spread-initialised, dropout 0; tanh clipping / temperature / top-k / top-p as drawn (default 10 / 1 / off); 1/4 of the "
+    "cases another bundled policy (BEAM_ZOO); PolyNet and L2D are not in the domain (PolyNet's strategy vector is tied to "
+    "the row index, so a beam changing slot changes its distribution: replay differs by O(1), probed; L2D -> C11)",
+    "filters: the candidates of a beam are the actions its filtered step distribution keeps (documented process_logits "
+    "semantics, vf.models.decode.ref_filter), scored with the renormalised log-probs; every beam keeps its most probable "
+    "action, so an instance always has >= W finite candidates (precondition checked; otherwise don't-care); a beam whose "
+    "kept set hinges on float rounding makes its instance don't-care for oracle 4 from that step on and its step / row "
+    "don't-care for the log-prob and entropy comparisons",
+    "return flags: with return_sum_log_likelihood the returned value is compared with the sum of the reference step "
+    "log-probs (1e-5 x steps); entropy = sum over the steps of the entropy of the (filtered) step distribution along the "
+    "returned sequence, forced start 0; an injected td['mask'] zeroes the flagged steps of the row it belongs to",
     "the reference trusts the bundled encoder/decoder modules, env.step / env masks and env.select_start_nodes (C12), "
     "not BeamSearch / process_logits / get_log_likelihood",
     "the compared score is the sum of the step log-probs of ALL steps so far (forced first move 0, post-finish padding "
@@ -109,15 +130,32 @@ ASSUMPTIONS = [
 TIME_CAP = {"quick": 300, "thorough": 2400}
 
 ENVS = ["tsp", "cvrp", "cvrptw", "op", "pctsp", "spctsp", "sdvrp", "pdp", "mtsp", "mtsp"]
-VARLEN = ("cvrp", "cvrptw", "op", "pctsp", "spctsp", "sdvrp", "mtsp")
-DEPOT = ("cvrp", "cvrptw", "op", "pctsp", "spctsp", "sdvrp", "mtsp")
+VARLEN = ("cvrp", "cvrptw", "op", "pctsp", "spctsp", "sdvrp", "mtsp", "mtvrp")
+DEPOT = ("cvrp", "cvrptw", "op", "pctsp", "spctsp", "sdvrp", "mtsp", "mtvrp")
 GAP = 1e-5
+# other bundled policies under beam search (1/4 of the cases): BeamSearch re-indexes the STATE by beam parents, the
+# decoder caches (PrecomputedCache incl. the non-tensor graph_context=0 of the POMO config, MatNet's tuple embeddings,
+# HAM's heterogeneous encoder, the MoE decoder) are per instance and must survive that.  Not defined: PolyNet (its
+# strategy vector is tied to the ROW index, so a beam that changes slot changes its distribution - probed: the replay
+# of a returned sequence differs by O(1)); L2D (random forced starts, scheduling oracle): left to C11.
+BEAM_ZOO = [("am_pomo", "tsp"), ("am_pomo", "cvrp"), ("am_pomo", "sdvrp"), ("symnco", "tsp"), ("symnco", "cvrp"),
+            ("ham", "pdp"), ("matnet", "atsp"), ("mvmoe", "mtvrp"), ("am", "mtvrp")]
+FIXED_LEN = ("tsp", "atsp", "pdp")  # envs where a [B,T] step-relevance mask can be injected (episode length known)
+TOP_K = [0] * 6 + [1, 2, 3]
+TOP_P = [0.0] * 6 + [0.5, 0.8, 0.95]
 
 
 # --------------------------------------------------------------------------- strategy
 @st.composite
 def cases(draw, tier="quick"):
-    envn = draw(st.sampled_from(ENVS))
+    zoo = None
+    if draw(st.integers(0, 3)) == 0:
+        # (entries at the end of a sampled_from list are under-sampled in short per-shard runs: the entry is a hash of an
+        #  independently drawn integer, which makes the coverage of the policy list even)
+        zoo = list(BEAM_ZOO[h64([draw(st.integers(0, 2 ** 20)), "beam_zoo"]) % len(BEAM_ZOO)])
+        envn = zoo[1]
+    else:
+        envn = draw(st.sampled_from(ENVS))
     n = draw(st.sampled_from([3, 4, 5, 6, 7, 8]))
     if envn == "pdp":
         n = max(2, 2 * (n // 2))
@@ -132,14 +170,48 @@ def cases(draw, tier="quick"):
     if envn == "mtsp":
         # default objective minmax: the reward lives in the ROLLOUT STATE (td["reward"]), not in the action sequence
         extra["ct"] = draw(st.sampled_from(["minmax", "minmax", "sum"]))
-    return dict(
+    if zoo is not None:
+        extra["zoo"] = zoo
+    key = zoo[0] if zoo else "am"
+    case = dict(
         **extra,
         env=envn, n=n, W=W, B=draw(st.integers(1, 4)), iseed=draw(st.integers(0, 2 ** 20)),
         pseed=draw(st.integers(0, 3)), spread=draw(st.sampled_from([1.25, 1.5, 1.5, 1.6, 2.0])),
         select_best=draw(st.booleans()), variant=draw(st.integers(0, 3)), check=draw(st.booleans()),
-        f64=(tier != "quick") and draw(st.sampled_from([False, False, False, True])),
+        f64=(tier != "quick") and key not in ("mvmoe",) and draw(st.sampled_from([False, False, False, True])),
         wdefault=draw(st.sampled_from([False] * 7 + [True])),  # beam_width=None: the env's own number of starts
     )
+    # ---- decoding configuration under beam search (audit items 1, 22): temperature / tanh clipping (policy attribute
+    # or decoding kwarg) / top-k / top-p, the return flags, BeamSearch's own select_best default, an injected [B,T]
+    # step-relevance mask (fixed-length envs)
+    if draw(st.booleans()):
+        dec = dict(temperature=draw(st.sampled_from([1.0, 0.5, 2.0])), tanh=draw(st.sampled_from([None, 0.0, 5.0, 10.0])),
+                   via=draw(st.sampled_from(["attr", "kwargs"])), top_k=draw(st.sampled_from(TOP_K)),
+                   top_p=draw(st.sampled_from(TOP_P)))
+        if dec["tanh"] == 0.0:
+            case["spread"] = min(case["spread"], 1.5)  # without clipping large spreads saturate the softmax
+        case["dec"] = dec
+    if draw(st.integers(0, 3)) == 0:
+        case["ret_sum"] = True
+    if draw(st.integers(0, 2)) == 0:
+        case["ret_entropy"] = True
+    if case["select_best"] and draw(st.integers(0, 2)) == 0:
+        case["sb_default"] = True  # select_best not passed: BeamSearch's own default (True)
+    if envn in FIXED_LEN and draw(st.integers(0, 3)) == 0:
+        case["stepmask"] = draw(st.lists(st.booleans(), min_size=4, max_size=24))
+    # ---- decode type taken from the `<phase>_decode_type` attribute of a drawn phase instead of the decode_type kwarg
+    if draw(st.integers(0, 4)) == 0:
+        case["dt_via"] = "phase"
+        case["phase"] = draw(st.sampled_from(["train", "val", "test"]))
+    # ---- a caller-supplied start rule (select_start_nodes_fn) instead of env.select_start_nodes
+    if draw(st.integers(0, 4)) == 0:
+        case["ssn"] = draw(st.integers(0, 7))
+        case["wdefault"] = False
+    # ---- env configuration / instance source / env built for another size / constructor switches
+    base = env_cfg(envn, n, case["variant"], case.get("ct"))
+    if envn != "mtsp":  # (mTSP: the agent ranges / cost types of env_cfg are the wide domain already)
+        case.update(draw(setup_dims(key, envn, n, base, case["B"], tier, by_name=False)))
+    return case
 
 
 def env_cfg(envn, n, variant, ct=None):
@@ -156,6 +228,10 @@ def env_cfg(envn, n, variant, ct=None):
         lo, hi = [(2, 3), (1, 2), (1, m), (3, 4)][v]
         cfg["min_agents"], cfg["max_agents"] = min(lo, m), min(hi, m)
         cfg["cost_type"] = ct or "minmax"
+    elif envn == "mtvrp":
+        cfg["variant"] = ["all", "cvrp", "ovrptw", "vrpbl"][v]
+    elif envn == "atsp":
+        cfg["tmat"] = v != 1
     return cfg
 
 
@@ -171,11 +247,23 @@ def minimize(case):
     lo = 2 if c["env"] == "pdp" else (4 if c["env"] == "mtsp" else 3)
     if c["n"] - step >= lo:
         yield {**c, "n": c["n"] - step, "W": min(c["W"], c["n"] - step)}
+    for key in ("lat", "ecfg", "env_shape", "opts", "dec", "stepmask", "ssn", "ret_sum", "ret_entropy", "sb_default", "dt_via",
+                "zoo"):
+        if key in c and not (key == "zoo" and c["env"] in ("atsp", "mtvrp")):
+            d = {kk: vv for kk, vv in c.items() if kk != key}
+            if key == "lat":
+                d.pop("src", None)
+            if key == "ecfg" and "lat" in c:
+                continue
+            yield d
     for key, val in (("f64", False), ("select_best", False), ("check", True), ("wdefault", False), ("variant", 0),
                      ("spread", 1.5),
                      ("pseed", 0)):
         if c.get(key) != val:
-            yield {**c, key: val}
+            d = {**c, key: val}
+            if key == "select_best":
+                d.pop("sb_default", None)
+            yield d
 
 
 # --------------------------------------------------------------------------- spy env
@@ -263,22 +351,53 @@ def _regime(W, n):
     return "W=2" if W == 2 else ("W=n" if W >= n else "2<W<n")
 
 
-def _tag(case):
-    """environment tag of the violation signatures / event classes (mTSP: with the cost type of the env object)."""
-    return case["env"] if case["env"] != "mtsp" else f"mtsp/{case.get('ct') or 'minmax'}"
-
-
 # --------------------------------------------------------------------------- main check
+def _zoo(case):
+    z = case.get("zoo")
+    return (z[0], z[1]) if z else ("am", case["env"])
+
+
+def _tag(case):
+    """environment tag of the violation signatures / event classes (mTSP: with the cost type of the env object; other
+    policies than the attention model: with the zoo key)."""
+    key = _zoo(case)[0]
+    t = case["env"] if case["env"] != "mtsp" else f"mtsp/{case.get('ct') or 'minmax'}"
+    return t if key == "am" else f"{key}/{t}"
+
+
+def _decoding(case, policy):
+    """-> (temperature, tanh clipping, top_k, top_p, decoding kwargs, attribute values to set) of the drawn decoding
+    configuration; defaults = the policy's own attributes (constructor values)."""
+    dec = case.get("dec")
+    dT, dC = float(policy.temperature), float(policy.tanh_clipping)
+    if not dec:
+        return dT, dC, 0, 0.0, {}, None
+    Tm = float(dec["temperature"])
+    C = dC if dec["tanh"] is None else float(dec["tanh"])
+    top_k, top_p = int(dec.get("top_k") or 0), float(dec.get("top_p") or 0.0)
+    kw, attrs = {}, None
+    if dec["via"] == "attr":
+        attrs = (Tm, C)
+    else:
+        kw = dict(temperature=Tm, tanh_clipping=C)
+    if top_k > 0:
+        kw["top_k"] = top_k
+    if top_p > 0:
+        kw["top_p"] = top_p
+    return Tm, C, top_k, top_p, kw, attrs
+
+
 def execute(case, ctx):
     envn, W, B = case["env"], int(case["W"]), int(case["B"])
+    key = _zoo(case)[0]
     f64 = bool(case["f64"])
     sb = bool(case["select_best"])
-    cfg = env_cfg(envn, case["n"], case["variant"], case.get("ct"))
+    cfg, mkw = resolve_setup(case, env_cfg(envn, case["n"], case["variant"], case.get("ct")))
     n = cfg["n"]
     tag = _tag(case)
     slice_ = f"{tag}|{'best' if sb else 'all'}"
-    env, inst, td0 = make_batch(envn, cfg, B, case["iseed"], double=f64)
-    policy = build_policy("am", envn, env, seed=case["pseed"], spread=case["spread"], double=f64)
+    env, inst, td0 = make_batch(envn, cfg, B, case["iseed"], double=f64, **mkw)
+    policy = build_policy(key, envn, env, seed=case["pseed"], spread=case["spread"], double=f64, opts=case.get("opts"))
     policy.eval()
     wdefault = bool(case.get("wdefault", False))
     if wdefault:
@@ -288,25 +407,37 @@ def execute(case, ctx):
         if W < 2:
             ctx.exclude("default_width<2")
             return
+    if envn == "pdp" and cfg.get("force_start"):
+        ctx.exclude("forced_start_infeasible(C12)")  # the reset mask admits the depot only (F36, C12)
+        return
 
     # ---- forced first moves must be feasible at reset, otherwise the case is C12's business
     m0 = expand_starts(td0, W)["action_mask"]
-    # OP: with fewer than W feasible nodes in some row the start rule samples feasible nodes from the global RNG (seeded
-    # identically here and before the policy call; the reference uses the starts the spy saw anyway); otherwise it
-    # hands out nodes 1..W whether feasible or not (F17, C12) - those instances are excluded right here
-    if envn == "op" and bool((td0["action_mask"][:, 1:].sum(-1) < W).any()):
-        ctx.event("op_sampled_starts")
-    torch.manual_seed(case["iseed"])
-    a0 = ctx.guard(env.select_start_nodes, td0.clone(), num_starts=W, what=f"select_start_nodes|{envn}")
-    if a0.shape[0] != m0.shape[0] or int(a0.max()) >= m0.shape[1] or int(a0.min()) < 0 \
-            or not bool(m0.gather(1, a0.view(-1, 1)).all()):
-        ctx.exclude("forced_start_infeasible(C12)")
+    first = 1 if SPECS[envn].has_depot_action else 0
+    if not bool(td0["action_mask"][:, first:].any(-1).all()):
+        # an instance without any feasible first move but the depot (OP with a short budget): there is nothing to force
+        # (the OP start rule then raises 'invalid multinomial distribution', part of F17, C12)
+        ctx.exclude("no_feasible_first_move_but_the_depot(C12)")
         return
+    if case.get("ssn") is None:
+        # OP: with fewer than W feasible nodes in some row the start rule samples feasible nodes from the global RNG (seeded
+        # identically here and before the policy call; the reference uses the starts the spy saw anyway); otherwise it
+        # hands out nodes 1..W whether feasible or not (F17, C12) - those instances are excluded right here
+        if envn == "op" and bool((td0["action_mask"][:, 1:].sum(-1) < W).any()):
+            ctx.event("op_sampled_starts")
+        torch.manual_seed(case["iseed"])
+        a0 = ctx.guard(env.select_start_nodes, td0.clone(), num_starts=W, what=f"select_start_nodes|{envn}")
+        if a0.shape[0] != m0.shape[0] or int(a0.max()) >= m0.shape[1] or int(a0.min()) < 0 \
+                or not bool(m0.gather(1, a0.view(-1, 1)).all()):
+            ctx.exclude("forced_start_infeasible(C12)")
+            return
 
     ctx.event(f"env:{tag}")
+    ctx.event(f"policy:{key}")
     ctx.event(f"width:{_regime(W, n - 1 if envn == 'mtsp' else n)}" + ("(default)" if wdefault else ""))
     ctx.event("select_best" if sb else "all_beams")
     ctx.event("env_checker_on" if case.get("check", True) else "env_checker_off")
+    setup_events(ctx, case, envn, cfg)
     if f64:
         ctx.event("float64")
     try:
@@ -318,6 +449,7 @@ def execute(case, ctx):
 
 def _run(case, ctx, cfg, env, inst, td0, policy, slice_, W, wdefault):
     envn, B = case["env"], int(case["B"])
+    key = _zoo(case)[0]
     tag = _tag(case)
     f64 = bool(case["f64"])
     sb = bool(case["select_best"])
@@ -327,42 +459,112 @@ def _run(case, ctx, cfg, env, inst, td0, policy, slice_, W, wdefault):
     rtol = 1e-12 if f64 else 1e-6
     eps = 2.0 ** -52 if f64 else 2.0 ** -23
     Tcap = 6 * n + 24 + TCAP_EXTRA
+    src = case.get("src", "gen")
+    ninf = float("-inf")
+
+    Tm, C, top_k, top_p, dkw, attrs = _decoding(case, policy)
+    filtered = top_k > 0 or (0.0 < top_p < 1.0)
+    fkw = dict(top_k=top_k, top_p=top_p)
+    ret_sum, ret_ent = bool(case.get("ret_sum")), bool(case.get("ret_entropy"))
+    if case.get("dec"):
+        ctx.event("decoding:non_default")
+        ctx.event(f"decoding:T={Tm}|C={C}|via={case['dec']['via']}")
+        if filtered:
+            ctx.event("decoding:filtered")
+            ctx.event(f"decoding:top_k={top_k}|top_p={top_p}")
+    for flag in ("ret_sum", "ret_entropy", "sb_default"):
+        if case.get(flag):
+            ctx.event(f"flag:{flag}")
 
     spy = SpyEnv(env)
     tdin = td0.clone()
     tdin.set("vf_hist", torch.full((B, Tcap), -1, dtype=torch.long))
     tdin.set("vf_len", torch.zeros(B, dtype=torch.long))
     tdin.set("vf_inst", torch.arange(B))
+    # step-relevance mask injected into the reset td (fixed-length envs): get_log_likelihood zeroes the flagged steps of
+    # the row the mask belongs to (the key rides along with the state through every beam re-ordering)
+    stepmask = None
+    if case.get("stepmask") is not None and envn in FIXED_LEN:
+        Tfix = n
+        bits = case["stepmask"]
+        stepmask = torch.tensor([[bits[(b * Tfix + t) % len(bits)] for t in range(Tfix)] for b in range(B)],
+                                dtype=torch.bool)
+        td0 = td0.clone()
+        td0.set("mask", stepmask)  # (the references replay from td0: the key must ride through their env.step calls too)
+        tdin.set("mask", stepmask.clone())
+        ctx.event("stepmask_injected")
+    ssn = None
+    if case.get("ssn") is not None:
+        ssn = StartFn(case["ssn"], 1 if SPECS[envn].has_depot_action else 0)
+        ctx.event("select_start_nodes_fn")
+    kw = dict(decode_type="beam_search", beam_width=(None if wdefault else W), return_actions=True,
+              return_sum_log_likelihood=ret_sum, max_steps=6 * n + 24, **dkw)
+    saved_types = None
+    if case.get("dt_via") == "phase":
+        # beam search requested through `phase` + `<phase>_decode_type` (the other phases carry another type)
+        del kw["decode_type"]
+        kw["phase"] = case["phase"]
+        saved_types = {p_: getattr(policy, f"{p_}_decode_type") for p_ in ("train", "val", "test")}
+        for p_ in saved_types:
+            setattr(policy, f"{p_}_decode_type", "beam_search" if p_ == case["phase"] else "greedy")
+        ctx.event(f"decode_type_via_phase:{case['phase']}")
+    if not case.get("sb_default"):
+        kw["select_best"] = sb
+    if ret_ent:
+        kw["return_entropy"] = True
+    if ssn is not None:
+        kw["select_start_nodes_fn"] = ssn
     torch.manual_seed(case["iseed"])
     # check=False: the env as constructed with the documented check_solution=False (no checker between beam search and
     # the caller); the env object is shared per process, so the flag is restored right after the call
     check0 = env.check_solution
     env.check_solution = bool(case.get("check", True))
+    saved = (policy.temperature, policy.tanh_clipping)
+    if attrs is not None:
+        policy.temperature, policy.tanh_clipping = attrs
     try:
         with torch.no_grad():
-            out = ctx.guard(policy, tdin, spy, what=f"policy|{slice_}", decode_type="beam_search",
-                            beam_width=(None if wdefault else W), select_best=sb, return_actions=True, return_sum_log_likelihood=False, max_steps=6 * n + 24)
+            out = ctx.guard(policy, tdin, spy, what=f"policy|{slice_}", **kw)
     finally:
         env.check_solution = check0
+        policy.temperature, policy.tanh_clipping = saved
+        if saved_types is not None:
+            for p_, v in saved_types.items():
+                setattr(policy, f"{p_}_decode_type", v)
     A_ret, ll_ret, rew_ret = out["actions"], out["log_likelihood"], out["reward"].reshape(-1)
     T = A_ret.shape[1]
     Rret = B if sb else R
-    ctx.check(A_ret.shape[0] == Rret and rew_ret.shape[0] == Rret and tuple(ll_ret.shape) == (Rret, T),
+    ctx.check(A_ret.shape[0] == Rret and rew_ret.shape[0] == Rret
+              and (tuple(ll_ret.shape) == (Rret,) if ret_sum else tuple(ll_ret.shape) == (Rret, T))
+              and (not ret_ent or tuple(out["entropy"].shape) == (Rret,)),
               f"shape|{slice_}", f"actions {tuple(A_ret.shape)} ll {tuple(ll_ret.shape)} reward "
-              f"{tuple(out['reward'].shape)} for B={B}, W={W}, select_best={sb}")
+              f"{tuple(out['reward'].shape)} for B={B}, W={W}, select_best={sb}"
+              + (" (BeamSearch default)" if case.get("sb_default") else "") + f", return_sum_log_likelihood={ret_sum}")
 
     # ---- what the spy saw
-    if spy.lost_keys or len(spy.starts) != 1 or not spy.rewards:
+    n_start_calls = len(spy.starts) + (len(ssn.calls) if ssn is not None else 0)
+    if spy.lost_keys or n_start_calls != 1 or not spy.rewards:
         # the observation channel itself failed (keys dropped / unexpected call pattern): not a verdict on the property
-        raise RuntimeError(f"spy channel broken: lost={spy.lost_keys} starts={len(spy.starts)} rewards={len(spy.rewards)}")
+        raise RuntimeError(f"spy channel broken: lost={spy.lost_keys} starts={n_start_calls} rewards={len(spy.rewards)}")
     if len(spy.steps) != T:
         ctx.violation(f"episode_length|{tag}", f"returned sequences have {T} steps but {len(spy.steps)} environment steps "
                       f"were executed")
         return
-    starts = spy.starts[0].long()
+    if ssn is not None:
+        # the caller's start rule replaces the env's: called once as fn(td, env, beam_width) on the un-expanded batch
+        ctx.check(len(spy.starts) == 0 and len(ssn.calls) == 1 and ssn.calls[0][0] == B and ssn.calls[0][1] is spy
+                  and ssn.calls[0][2] == W, f"start_fn_call|{tag}",
+                  f"select_start_nodes_fn was called {len(ssn.calls)}x with (batch, env, num_starts) = "
+                  f"{[(c[0], type(c[1]).__name__, c[2]) for c in ssn.calls]}, env.select_start_nodes {len(spy.starts)}x "
+                  f"(expected one call (B={B}, the env, {W}))")
+        starts = ssn.out.long()
+    else:
+        starts = spy.starts[0].long()
     m0 = expand_starts(td0, W)["action_mask"]
     if starts.shape[0] != R or int(starts.max()) >= m0.shape[1] or int(starts.min()) < 0 \
             or not bool(m0.gather(1, starts.view(-1, 1)).all()):
+        if ssn is not None:
+            raise RuntimeError("harness start function returned an infeasible start")
         ctx.exclude("forced_start_infeasible(C12)")
         return
     # all beams (before best-selection)
@@ -391,27 +593,76 @@ def _run(case, ctx, cfg, env, inst, td0, policy, slice_, W, wdefault):
                       f"{H[bad[0]].tolist()}", {"returned": A, "executed": H})
 
     # ---- Oracle 2 (+ feasibility through the env's own masks): replay along the returned sequences
-    ref = reference_logprobs(policy, env, td0, A, num_starts=W, forced_first=True)
+    ref = reference_logprobs(policy, env, td0, A, num_starts=W, forced_first=True, temperature=Tm, tanh_clipping=C, **fkw)
     ctx.check(bool(ref.in_mask.all()), f"action_outside_mask|{tag}", "a returned beam takes an action outside the env mask",
               {"actions": A, "in_mask": ref.in_mask})
     ctx.check(ref.mask_ok, f"decoder_mask_mismatch|{tag}", "decoder-returned mask differs from td['action_mask']")
     ctx.check(ref.all_done_at == T, f"episode_length|{tag}",
               f"returned {T} steps but replaying the beams finishes every row after {ref.all_done_at}")
     slack = 32 * eps * ref.scale
-    if sb:
-        # rows selected: identify below (oracle 5); here nothing to compare yet
-        pass
-    else:
-        if not _close(ll_ret, ref.logp, tol, slack):
+    # steps whose kept set (top-k / top-p) hinges on float rounding are don't-care (all False without filters):
+    # per-step comparisons skip the step, summed ones (return_sum_log_likelihood / entropy) the row
+    okst = ~ref.ambig
+    okrow = okst.all(1)
+    want = ref.logp
+    smask = None
+    if stepmask is not None:
+        if "mask" not in ref.td.keys():
+            ctx.exclude("stepmask_dropped_by_env")
+        else:
+            smask = stepmask[torch.arange(R) % B]  # row r belongs to instance r mod B
+            ctx.check(torch.equal(ref.td["mask"], smask), f"stepmask_changed|{tag}", "env.step altered the injected mask key")
+            want = torch.where(smask, want, torch.zeros_like(want))
+    if filtered:
+        ctx.check(bool((ref.logp[okst] > ninf).all()), f"beam_through_filtered_action|{tag}",
+                  f"a returned beam takes an action outside the reference kept set of top_k={top_k} / top_p={top_p} although "
+                  f"every beam always has a kept candidate", {"actions": A, "reference": ref.logp, "ambiguous": ref.ambig})
+        removed = (ref.nkept < ref.nfeas) & ~ref.forced.view(1, -1)
+        ctx.event("steps_filter_removed", int(removed.sum()))
+        ctx.event("steps_filter_ambiguous", int(ref.ambig.sum()))
+        if bool(removed.any()):
+            ctx.event("filter_removed_feasible")
+
+    def ll_matches(got, rows_got, rows_ref, tol_):
+        """got [len(rows_got)(,T)] returned log-likelihood of rows_ref of the reference (per step, or summed)."""
+        w, ok_, sl_ = want[rows_ref], okst[rows_ref], slack[rows_ref]
+        g = got[rows_got]
+        if ret_sum:
+            rr = ok_.all(1)
+            d = (g.double() - w.sum(1)).abs()
+            return bool((d <= tol_ * max(1, T) * (1 + w.sum(1).abs()) + sl_.sum(1))[rr].all())
+        d = (g.double() - w).abs()
+        return bool((d <= tol_ * (1 + w.abs()) + sl_)[ok_].all())
+
+    ent_ref = ref.entropy.sum(1)
+    ent_slack = 4 * slack.sum(1)
+
+    def ent_matches(got, rows_got, rows_ref):
+        rr = okrow[rows_ref]
+        d = (got[rows_got].double() - ent_ref[rows_ref]).abs()
+        return bool((d <= tol * max(1, T) * (1 + ent_ref[rows_ref].abs()) + ent_slack[rows_ref])[rr].all())
+
+    allrows = torch.arange(R)
+    if not sb:
+        if not ll_matches(ll_ret, allrows, allrows, tol):
             ctx.violation(f"ll_vs_replay|{tag}",
-                          f"returned per-step log-probs differ from the policy's log-probs along the returned sequence by "
-                          f"{_maxdiff(ll_ret, ref.logp):.3e}", {"ll": ll_ret, "replay": ref.logp, "actions": A})
-        ctx.check(bool((ll_ret[:, 0] == 0).all()), f"forced_start_nonzero|{tag}",
-                  "forced first move contributes a non-zero log-prob", {"ll0": ll_ret[:, 0]})
+                          f"returned {'summed' if ret_sum else 'per-step'} log-probs differ from the policy's log-probs along "
+                          f"the returned sequence by {_maxdiff(ll_ret, want.sum(1) if ret_sum else want):.3e}",
+                          {"ll": ll_ret, "replay": want, "actions": A, "ambiguous": ref.ambig})
+        if not ret_sum:
+            ctx.check(bool((ll_ret[:, 0] == 0).all()), f"forced_start_nonzero|{tag}",
+                      "forced first move contributes a non-zero log-prob", {"ll0": ll_ret[:, 0]})
+            if smask is not None:
+                ctx.check(bool((ll_ret[~smask] == 0).all()), f"irrelevant_step_nonzero|{tag}",
+                          "a step flagged irrelevant contributes a non-zero log-prob", {"ll": ll_ret, "mask": smask})
+        if ret_ent and not ent_matches(out["entropy"], allrows, allrows):
+            ctx.violation(f"entropy_vs_replay|{tag}",
+                          f"returned entropy differs from the summed entropies of the step distributions along the returned "
+                          f"sequence by {_maxdiff(out['entropy'], ent_ref):.3e}", {"entropy": out["entropy"], "replay": ent_ref})
 
     # ---- Oracle 1: complete + feasible, reward == objective == get_reward on the replayed state
     spec = SPECS[envn]
-    jcase = {"env": envn, "cfg": cfg, "src": "gen"}
+    jcase = {"env": envn, "cfg": cfg, "src": src}
     objs, terms = [], []
     for r in range(R):
         row = py_instance(envn, inst[r % B])
@@ -460,19 +711,28 @@ def _run(case, ctx, cfg, env, inst, td0, policy, slice_, W, wdefault):
     # step 0 of the run: every slot executed its forced start
     h0 = spy.steps[0]["hist"][:, 0]
     ctx.check(torch.equal(h0, starts), f"forced_start_not_executed|{tag}",
-              f"first executed moves {h0.tolist()} are not the forced starts {starts.tolist()}")
-    bref = reference_beam_search(policy, env, td0, W, starts=starts, follow=follow)
+              f"first executed moves {h0.tolist()} are not the forced starts {starts.tolist()}"
+              + (" handed out by select_start_nodes_fn" if ssn is not None else ""))
+    bref = reference_beam_search(policy, env, td0, W, starts=starts, follow=follow, temperature=Tm, tanh_clipping=C, **fkw)
     if bref.invalid is not None:
-        t, b, slot, p = bref.invalid
+        t, b, slot, p_ = bref.invalid
         prev = [bm.prefix for bm in bref.steps[t - 1].kept[b]]
         ctx.violation(f"kept_not_an_expansion|{tag}",
-                      f"step {t}, instance {b}, slot {slot}: kept beam {list(p)} is not a feasible one-node expansion of "
-                      f"the previous beams {prev} (with multiplicity)", {"step": t, "instance": b, "prefix": p})
+                      f"step {t}, instance {b}, slot {slot}: kept beam {list(p_)} is not a feasible"
+                      + (f" (kept by top_k={top_k} / top_p={top_p})" if filtered else "")
+                      + f" one-node expansion of the previous beams {prev} (with multiplicity)",
+                      {"step": t, "instance": b, "prefix": p_})
     ctx.check(bref.mask_ok, f"decoder_mask_mismatch|{tag}", "decoder-returned mask differs from td['action_mask'] (beam ref)")
+    # instances whose candidate set became rounding-dependent at some step (filters only) are don't-care from there on
+    taint = [(bref.tainted_at[b] if bref.tainted_at and bref.tainted_at[b] is not None else T + 1) for b in range(B)]
+    if any(tt <= T for tt in taint):
+        ctx.event("instances_tainted_by_ambiguous_filter_cut", sum(tt <= T for tt in taint))
     n_dec = n_multi = 0
     for t in range(1, T):
         stp = bref.steps[t]
         for b in range(B):
+            if t >= taint[b]:
+                continue
             kept = sorted((bm.score for bm in stp.kept[b]), reverse=True)
             top = stp.top[b]
             if stp.ncand[b] > W:
@@ -483,7 +743,8 @@ def _run(case, ctx, cfg, env, inst, td0, policy, slice_, W, wdefault):
                     ctx.violation(
                         f"kept_not_top_w|{tag}",
                         f"step {t}, instance {b}: accumulated scores of the kept beams {kept} are not the {W} best of the "
-                        f"{stp.ncand[b]} feasible expansions {top} (W-th/(W+1)-th gap {stp.gap[b]:.3e})",
+                        f"{stp.ncand[b]} feasible expansions {top} (W-th/(W+1)-th gap {stp.gap[b]:.3e})"
+                        + (f" under temperature={Tm}, tanh_clipping={C}, top_k={top_k}, top_p={top_p}" if case.get("dec") else ""),
                         {"step": t, "instance": b, "kept": [list(bm.prefix) for bm in stp.kept[b]], "kept_scores": kept,
                          "top": top})
     ctx.event("steps_with_choice", n_multi)
@@ -491,6 +752,7 @@ def _run(case, ctx, cfg, env, inst, td0, policy, slice_, W, wdefault):
     # the reference's per-step log-probs along the final beams' ancestry == returned per-step log-probs (same layout)
     lp_anc = torch.zeros(R, T, dtype=torch.float64)
     last = bref.steps[-1]
+    clean = torch.tensor([taint[r % B] > T for r in range(R)])
     for b in range(B):
         for j in range(W):
             slot, t = j, T - 1
@@ -498,12 +760,14 @@ def _run(case, ctx, cfg, env, inst, td0, policy, slice_, W, wdefault):
                 bm = bref.steps[t].kept[b][slot]
                 lp_anc[j * B + b, t] = bm.logp
                 slot, t = bm.parent, t - 1
-    if not _close(ref.logp, lp_anc, tol, slack):  # harness self-consistency across layouts (not a verdict on rl4co)
-        ctx.event("replay_vs_beamref_layout_noise")
-    if not sb and not _close(ll_ret, lp_anc, tol, 8 * eps * ref.scale):
-        ctx.violation(f"ll_vs_beam_ancestry|{tag}",
-                      f"returned per-step log-probs differ from those of the beam's ancestors by {_maxdiff(ll_ret, lp_anc):.3e}",
-                      {"ll": ll_ret, "reference": lp_anc})
+    if bool(clean.any()) and not _close(ref.logp[clean], lp_anc[clean], tol, slack[clean]):
+        ctx.event("replay_vs_beamref_layout_noise")  # harness self-consistency across layouts (not a verdict on rl4co)
+    if not sb and not ret_sum and bool(clean.any()):
+        anc = lp_anc if smask is None else torch.where(smask, lp_anc, torch.zeros_like(lp_anc))
+        if not _close(ll_ret[clean], anc[clean], tol, (8 * eps * ref.scale)[clean]):
+            ctx.violation(f"ll_vs_beam_ancestry|{tag}",
+                          f"returned per-step log-probs differ from those of the beam's ancestors by "
+                          f"{_maxdiff(ll_ret[clean], anc[clean]):.3e}", {"ll": ll_ret, "reference": anc})
 
     # ---- Oracle 5: best-selection
     if sb:
@@ -532,13 +796,22 @@ def _run(case, ctx, cfg, env, inst, td0, policy, slice_, W, wdefault):
             ctx.check(abs(float(rew_ret[b]) - objs[match[0]]) <= tb, f"select_best_reward_vs_returned_actions|{tag}",
                       f"instance {b}: returned reward {float(rew_ret[b])} but the returned actions {A_ret[b].tolist()} have "
                       f"objective {objs[match[0]]}")
-            ok = any(_close(ll_ret[b], ref.logp[r], tol, slack[r]) for r in match)
+            ok = any(ll_matches(ll_ret, torch.tensor([b]), torch.tensor([r]), tol) for r in match)
             if not ok:
                 ctx.violation(f"ll_vs_replay|{tag}|best",
-                              f"instance {b}: returned per-step log-probs {ll_ret[b].tolist()} are not those of the selected "
-                              f"beam {ref.logp[match[0]].tolist()}", {"actions": A_ret[b]})
-            ctx.check(float(ll_ret[b, 0]) == 0.0, f"forced_start_nonzero|{tag}",
-                      "forced first move contributes a non-zero log-prob")
+                              f"instance {b}: returned log-probs {ll_ret[b].tolist()} are not those of the selected "
+                              f"beam {want[match[0]].tolist()}" + (" (summed)" if ret_sum else ""), {"actions": A_ret[b]})
+            if not ret_sum:
+                ctx.check(float(ll_ret[b, 0]) == 0.0, f"forced_start_nonzero|{tag}",
+                          "forced first move contributes a non-zero log-prob")
+                if smask is not None:
+                    ctx.check(bool((ll_ret[b][~stepmask[b]] == 0).all()), f"irrelevant_step_nonzero|{tag}",
+                              f"instance {b}: a step flagged irrelevant contributes a non-zero log-prob",
+                              {"ll": ll_ret[b], "mask": stepmask[b]})
+            if ret_ent and not any(ent_matches(out["entropy"], torch.tensor([b]), torch.tensor([r])) for r in match):
+                ctx.violation(f"entropy_vs_replay|{tag}|best",
+                              f"instance {b}: returned entropy {float(out['entropy'][b])} is not that of the selected beam "
+                              f"({[float(ent_ref[r]) for r in match]})", {"actions": A_ret[b]})
             if len(set(round(x, 9) for x in o)) > 1:
                 ctx.event("select_best_beams_differ_in_reward")
                 if o.index(best) != 0:
@@ -555,10 +828,15 @@ def _run(case, ctx, cfg, env, inst, td0, policy, slice_, W, wdefault):
         ctx.nontriv()
         if envn in VARLEN and differ:
             ctx.event("nontrivial_varlen_different_finish")
+        if filtered and bool(removed.any()):
+            ctx.event("nontrivial_filter_removed_feasible")
+        if key != "am":
+            ctx.event(f"nontrivial_policy:{key}")
     frac = "all" if n_dec == n_multi else ("most" if n_dec >= 0.8 * max(1, n_multi) else "some")
     ctx.event(f"decisive:{frac}")
-    ctx.sample({"env": envn, "n": n, "W": W, "B": B, "select_best": sb, "T": T, "beams_instance0":
-                [A[j * B].tolist() for j in range(W)], "scores_instance0": [round(bm.score, 4) for bm in last.kept[0]]})
+    ctx.sample({"env": envn, "policy": key, "n": n, "W": W, "B": B, "select_best": sb, "T": T, "dec": case.get("dec"),
+                "beams_instance0": [A[j * B].tolist() for j in range(W)],
+                "scores_instance0": [round(bm.score, 4) for bm in last.kept[0]]})
 
 
 # =========================================================================== large stacked batches
